@@ -379,7 +379,10 @@ func (x *c08Ctx) checkWorkspaceSymbols() *c08Fail {
 	return nil
 }
 
-type c08State struct{ bad [][]string }
+type c08State struct {
+	bad       [][]string
+	unreduced map[string]int
+}
 
 func c08Counts(tier string) int64 {
 	if tier == "thorough" {
@@ -534,13 +537,33 @@ func runC08(c *Ctx, idx int64) {
 		}
 		return
 	}
-	// reduce to the smallest feature set that reproduces the same kind on one file
 	feats := w.AllFeats()
+	if fl.Kind == "not-on-target(include)" {
+		// needs an include chain: not reducible to one file
+		c.Violate(Violation{Kind: fl.Kind, Sig: fmt.Sprintf("C08:%s|%s|include-chain", fl.Kind, fl.Req), Pool: "clean", Detail: fl.Detail,
+			Witness: map[string]any{"workspace": w.String(), "workspace_root": w.Root, "features": feats}})
+		return
+	}
+	// a failure that needs several files cannot be reproduced on one: after three fruitless
+	// reductions of the same kind in this shard the reduction is skipped
+	rk := fl.Kind + "|" + fl.Req
+	if len(w.Names) > 1 && st.unreduced[rk] >= 3 {
+		c.Violate(Violation{Kind: fl.Kind, Sig: fmt.Sprintf("C08:%s|%s|several-files", fl.Kind, fl.Req), Pool: "clean", Detail: fl.Detail,
+			Witness: map[string]any{"workspace": w.String(), "workspace_root": w.Root, "features": feats}})
+		return
+	}
+	// reduce to the smallest feature set that reproduces the same kind on one file
 	red := MinimalFailing(feats, func(j *MJournal) bool {
 		w2 := singleFileWS(j)
 		f2 := c08Run(c, dir+"r", w2, NewRNG(1), false)
 		return f2 != nil && f2.Kind == fl.Kind && f2.Req == fl.Req
 	})
+	if len(w.Names) > 1 && len(red) > 0 && red[len(red)-1] == "ctx.unreduced" {
+		if st.unreduced == nil {
+			st.unreduced = map[string]int{}
+		}
+		st.unreduced[rk]++
+	}
 	sig := fmt.Sprintf("C08:%s|%s|feat:%s", fl.Kind, fl.Req, featKey(red))
 	c.Violate(Violation{Kind: fl.Kind, Sig: sig, Pool: "clean", Features: red, Detail: fl.Detail,
 		Witness: map[string]any{"workspace": w.String(), "workspace_root": w.Root, "features": feats}})
